@@ -14,6 +14,8 @@ var vpC11Patterns = []string{
 	"(|abc)", "x?abc", "[ab]cd", `abc\d`, "ab+c", "(?i)ab(c|x)d", `\babc\b`, "^(abc)$", "abc.de", "(?i:ab)cd",
 	"(abc)(de)?", "^$", "abc|", "(?i)a[bc]d|xyz", `^ab\z`, `\Aabc`, "ab|cd|ef", "(?i)(?:abc|abd|xbc)", "a(bc)*d", "abc|(?i)xyz",
 	"(^abc$)", "(?i)(^ab$)", "^a$", "(?s)^abc$", "^abc$|^abd$",
+	// mixed case flags with upper-case case-sensitive literals
+	"AB(?i:cd)", "(?i:ab)CD", "(?i)ab(?-i:CD)", "(?i:a)BC|xyz",
 }
 
 type vpCapture struct {
